@@ -272,6 +272,66 @@ fn gen_c07_value(rng: &mut Rng, cfg: &GenCfg, tb: &Tables) -> Value {
     }
 }
 
+/// One `Printer` used again after a transient sink error: the second value must
+/// arrive exactly as its text, directly after the prefix delivered before the error.
+fn reuse_after_error(rep: &mut Report, v1: &Value, v2: &Value, p: &P, rng: &mut Rng) {
+    let is_default = *p == P::default_();
+    let (full1, full2) = match (lexpr::to_string_custom(v1, p.to_lexpr()), lexpr::to_string_custom(v2, p.to_lexpr())) {
+        (Ok(a), Ok(b)) => (a.into_bytes(), b.into_bytes()),
+        _ => return,
+    };
+    if full1.is_empty() {
+        return;
+    }
+    let mut offsets: Vec<usize> = if full1.len() <= 40 { (0..full1.len()).collect() } else { (0..12).map(|_| rng.below(full1.len())).collect() };
+    offsets.dedup();
+    for k in offsets {
+        for max in [1usize, 3, usize::MAX] {
+            for new_printer in [false, true] {
+                if new_printer && !is_default {
+                    continue;
+                }
+                rep.eval();
+                rep.distinct(hash2(hash_bytes(&full1), hash2(hash_bytes(&full2), hash2(k as u64, hash2(max as u64, p.index() as u64 * 2 + new_printer as u64)))));
+                let w = FailOnceWriter::new(k, max);
+                let (r1, r2, w) = if new_printer {
+                    let mut pr = Printer::new(w);
+                    let r1 = pr.print(v1);
+                    let r2 = pr.print(v2);
+                    (r1, r2, pr.into_inner())
+                } else {
+                    let mut pr = Printer::with_options(w, p.to_lexpr());
+                    let r1 = pr.print(v1);
+                    let r2 = pr.print(v2);
+                    (r1, r2, pr.into_inner())
+                };
+                let entry = if new_printer { "Printer::new.print" } else { "Printer::with_options.print" };
+                let mut expected = full1[..k].to_vec();
+                expected.extend_from_slice(&full2);
+                let what = if r1.is_ok() {
+                    Some("transient-error-swallowed")
+                } else if r2.is_err() {
+                    Some("second-print-fails-after-transient-error")
+                } else if w.out != expected {
+                    Some("second-print-not-its-text-after-transient-error")
+                } else {
+                    None
+                };
+                rep.count("reuse:printer-used-after-transient-error");
+                if let Some(what) = what {
+                    rep.violation(
+                        "reuse",
+                        format!("C07:{}:{}:{}", what, entry, leaf_class(v1)),
+                        format!("{} with {}: first print of {} fails transiently at byte {} (sink takes <= {} bytes per call), then print of {}: results {:?} / {:?}; sink holds {:?}, expected {:?}", entry, p.describe(), dbg_value(v1), k, max, dbg_value(v2), r1.map_err(|e| e.kind()), r2.map_err(|e| e.kind()), show(&w.out), show(&expected)),
+                        json!({"v1": dbg_value(v1), "v2": dbg_value(v2), "options_index": p.index(), "offset": k, "max": max}),
+                    );
+                    return;
+                }
+            }
+        }
+    }
+}
+
 #[cfg(feature = "full")]
 fn serde_entry(rep: &mut Report, rng: &mut Rng) {
     // serde_lexpr::to_writer(_custom): same sink discipline through the Serde layer
@@ -365,6 +425,52 @@ pub fn sets(ctx: &Ctx) -> Vec<CaseSet> {
             let v = gen::gen_value(rng, &c, &tb3, 0);
             let p = if rng.bool() { P::default_() } else { P::from_index(rng.below(N_P)) };
             check(rep, &v, &p, rng, false);
+        }),
+    ));
+
+    let (tb4, cfg4) = (tb.clone(), cfg.clone());
+    out.push(CaseSet::new(
+        "printer-reused-after-transient-error",
+        ctx.size(1_500, 100_000),
+        Box::new(move |rep, rng, _| {
+            let v1 = gen_c07_value(rng, &cfg4, &tb4);
+            let v2 = gen_c07_value(rng, &cfg4, &tb4);
+            let p = match rng.below(3) {
+                0 => P::default_(),
+                1 => P::elisp(),
+                _ => P::from_index(rng.below(N_P)),
+            };
+            reuse_after_error(rep, &v1, &v2, &p, rng);
+        }),
+    ));
+
+    // sizes at and around powers of two (buffer capacities, chunk sizes)
+    out.push(CaseSet::new(
+        "sizes-around-powers-of-two",
+        ctx.size(60, 240),
+        Box::new(move |rep, rng, case| {
+            let p = if case % 4 == 0 { P::default_() } else { P::from_index(rng.below(N_P)) };
+            let mut sizes: Vec<usize> = Vec::new();
+            for k in [8u32, 10, 11, 12, 13] {
+                for d in [-1i64, 0, 1] {
+                    sizes.push(((1i64 << k) + d) as usize);
+                }
+            }
+            if thorough {
+                sizes.extend([1500, 16383, 16384, 16385, 65536]);
+            }
+            let n = sizes[(case as usize / 4) % sizes.len()];
+            rep.max("max_sized_value", n as u64);
+            let vs = [
+                Value::bytes((0..n).map(|i| (i * 7 + n) as u8).collect::<Vec<u8>>()),
+                Value::string((0..n).map(|i| if i % 97 == 0 { 'é' } else if i % 31 == 0 { '"' } else { (b'a' + (i % 26) as u8) as char }).collect::<String>()),
+                Value::list((0..n).map(|i| Value::from((i % 1000) as u32)).collect::<Vec<_>>()),
+                Value::vector((0..n).map(|i| Value::from((i % 7) as u32)).collect::<Vec<_>>()),
+                Value::symbol("s".repeat(n)),
+            ];
+            for v in vs.iter() {
+                check(rep, v, &p, rng, false);
+            }
         }),
     ));
 
